@@ -1,437 +1,137 @@
 /-
-C20 — helper lemmas, part 2: documents that avoid the known holes never get stuck.
+C20 — helper lemmas, part 2: no document gets the parser stuck (templates, fields, function calls,
+macros).  The only hypotheses are the guards of the callers (`obj.get("object")`, `obj.get("var")`).
 -/
 import SnowModel.Proofs.C20
 
 namespace SnowModel.ParseCheck
 
-/-! ### facts about the `ok…` predicates -/
-
-/-- the per-entry condition of `okNode` -/
-def entryOk (k v : Y) : Bool :=
-  if keyStr k == "fields" then okFieldsY v
-  else if keyStr k == "friends" then okStmtsY v
-  else if keyStr k == "for_each" then okForEachY v
-  else if keyStr k == "count" || keyStr k == "value" then okFV v
-  else true
-
-theorem okNode_cons (k v : Y) (rest : KVs) :
-    okNode ((k, v) :: rest) = (entryOk k v && okNode rest) := by
-  simp only [okNode, entryOk]
-
-theorem okNode_mem {kvs : KVs} (h : okNode kvs = true) : ∀ p ∈ kvs, entryOk p.1 p.2 = true := by
-  induction kvs with
-  | nil => intro p hp; cases hp
-  | cons q rest ih =>
-    obtain ⟨k, v⟩ := q
-    rw [okNode_cons, Bool.and_eq_true] at h
-    intro p hp
-    rcases List.mem_cons.mp hp with hp | hp
-    · subst hp; exact h.1
-    · exact ih h.2 p hp
-
-theorem okNode_fields {kvs f : KVs} (h : okNode kvs = true) (hl : lookup kvs "fields" = some (.map f)) :
-    okFields f = true := by
-  have := okNode_mem h _ (lookup_mem hl)
-  simpa [entryOk, keyStr, okFieldsY] using this
-
-theorem okNode_friends {kvs : KVs} {xs : List Y} (h : okNode kvs = true)
-    (hl : lookup kvs "friends" = some (.list xs)) : okStmts xs = true := by
-  have := okNode_mem h _ (lookup_mem hl)
-  simpa [entryOk, keyStr, okStmtsY] using this
-
-theorem okNode_count {kvs : KVs} {v : Y} (h : okNode kvs = true)
-    (hl : lookup kvs "count" = some v) : okFV v = true := by
-  have := okNode_mem h _ (lookup_mem hl)
-  simpa [entryOk, keyStr] using this
-
-theorem okNode_value {kvs : KVs} {v : Y} (h : okNode kvs = true)
-    (hl : lookup kvs "value" = some v) : okFV v = true := by
-  have := okNode_mem h _ (lookup_mem hl)
-  simpa [entryOk, keyStr] using this
-
-theorem okNode_forEach {kvs fe : KVs} (h : okNode kvs = true)
-    (hl : lookup kvs "for_each" = some (.map fe)) :
-    (lookup fe "var").isSome = true ∧ okNode fe = true := by
-  have := okNode_mem h _ (lookup_mem hl)
-  simpa [entryOk, keyStr, okForEachY] using this
-
-/-! ### `random_reference` arguments -/
-
-def goodRef (r : Ref) : Prop := (checkRef r).isStuck = false
-
-def isSimple : Ast → Bool
-  | .simple _ => true
-  | _ => false
-
-theorem fv_scalar {fuel : Nat} {m : Macros} {v : Y} {a : Ast} {r : List Ref}
-    (hs : isScalar v = true) (h : parseFieldValue fuel m v = .ok a r) : isSimple a = true := by
-  cases fuel with
-  | zero => simp [parseFieldValue] at h
-  | succ n =>
-    cases v <;> simp [isScalar] at hs <;> simp [parseFieldValue] at h <;> (rw [← h.1]; rfl)
-
-theorem goodRef_pos {x : Ast} {rest : List Ast} {kw : List (String × Ast)} (h : isSimple x = true) :
-    goodRef (x :: rest, kw) := by
-  cases x with
-  | simple s => cases s <;> rfl
-  | struct _ _ _ => cases h
-  | tmpl _ _ _ _ _ _ _ _ => cases h
-  | var _ _ => cases h
-
-theorem goodRef_kw {kw : List (String × Ast)} {x : Ast} (hl : kw.lookup "to" = some x)
-    (h : isSimple x = true) : goodRef ([], kw) := by
-  cases kw with
-  | nil => cases hl
-  | cons p rest =>
-    unfold goodRef checkRef
-    simp only [hl]
-    cases x with
-    | simple s => cases s <;> rfl
-    | struct _ _ _ => cases h
-    | tmpl _ _ _ _ _ _ _ _ => cases h
-    | var _ _ => cases h
-
-theorem parseArgs_goodRef {fuel : Nat} {m : Macros} {a : Y} {pa : Ref} {refs : List Ref}
-    (h : parseArgs fuel m a = .ok pa refs) (hok : refArgsOk a = true) : goodRef pa := by
-  cases fuel with
-  | zero => simp [parseArgs] at h
-  | succ n =>
-    cases a with
-    | map kvs =>
-      simp only [parseArgs, bind_eq, pure_eq] at h
-      obtain ⟨kw, r1, r2, h1, h2, _⟩ := bind_ok_inv h
-      simp only [Res.ok.injEq] at h2
-      rw [← h2.1]
-      simp only [refArgsOk, Bool.and_eq_true, List.any_eq_true, List.all_eq_true] at hok
-      obtain ⟨⟨p, hp, hpto⟩, hall⟩ := hok
-      -- a keyword named "to" exists in kw and every such keyword is simple
-      have hex : ∃ q ∈ kw, q.1 = "to" := by
-        obtain ⟨q, hq, r, hfq⟩ := mapR_ok_mem' h1 p hp
-        refine ⟨q, hq, ?_⟩
-        obtain ⟨k, r3, r4, h3, h4, _⟩ := bind_ok_inv hfq
-        obtain ⟨x, r5, r6, h5, h6, _⟩ := bind_ok_inv h4
-        simp only [Res.ok.injEq] at h6
-        rw [← h6.1]
-        simp only [keyIsTo, h3] at hpto
-        simpa using hpto
-      have hall' : ∀ q ∈ kw, q.1 = "to" → isSimple q.2 = true := by
-        intro q hq hk
-        obtain ⟨p', hp', r, hfq⟩ := mapR_ok_mem h1 q hq
-        obtain ⟨k, r3, r4, h3, h4, _⟩ := bind_ok_inv hfq
-        obtain ⟨x, r5, r6, h5, h6, _⟩ := bind_ok_inv h4
-        simp only [Res.ok.injEq] at h6
-        have hkq : k = q.1 := by rw [← h6.1]
-        have hxq : x = q.2 := by rw [← h6.1]
-        have hto : keyIsTo p'.1 = true := by
-          simp only [keyIsTo, h3]; rw [hkq, hk]; rfl
-        have hsc := hall p' hp'
-        simp only [hto, Bool.not_true, Bool.false_or] at hsc
-        rw [← hxq]
-        exact fv_scalar hsc h5
-      obtain ⟨x, hx1, hx2⟩ := dedupe_lookup (P := fun a => isSimple a = true) "to" kw hex hall'
-      exact goodRef_kw hx1 hx2
-    | list xs =>
-      cases xs with
-      | nil => simp [refArgsOk] at hok
-      | cons x rest =>
-        simp only [parseArgs, bind_eq, pure_eq] at h
-        obtain ⟨pos, r1, r2, h1, h2, _⟩ := bind_ok_inv h
-        simp only [Res.ok.injEq] at h2
-        rw [← h2.1]
-        obtain ⟨b, bs', r3, r4, h3, h4, _⟩ := mapR_cons_ok h1
-        rw [h3]
-        simp only [refArgsOk] at hok
-        exact goodRef_pos (fv_scalar hok h4)
-    | null =>
-      simp only [parseArgs, bind_eq, pure_eq] at h
-      obtain ⟨x, r1, r2, h1, h2, _⟩ := bind_ok_inv h
-      simp only [Res.ok.injEq] at h2
-      rw [← h2.1]; exact goodRef_pos (fv_scalar rfl h1)
-    | bool _ =>
-      simp only [parseArgs, bind_eq, pure_eq] at h
-      obtain ⟨x, r1, r2, h1, h2, _⟩ := bind_ok_inv h
-      simp only [Res.ok.injEq] at h2
-      rw [← h2.1]; exact goodRef_pos (fv_scalar rfl h1)
-    | int _ =>
-      simp only [parseArgs, bind_eq, pure_eq] at h
-      obtain ⟨x, r1, r2, h1, h2, _⟩ := bind_ok_inv h
-      simp only [Res.ok.injEq] at h2
-      rw [← h2.1]; exact goodRef_pos (fv_scalar rfl h1)
-    | float _ =>
-      simp only [parseArgs, bind_eq, pure_eq] at h
-      obtain ⟨x, r1, r2, h1, h2, _⟩ := bind_ok_inv h
-      simp only [Res.ok.injEq] at h2
-      rw [← h2.1]; exact goodRef_pos (fv_scalar rfl h1)
-    | str _ =>
-      simp only [parseArgs, bind_eq, pure_eq] at h
-      obtain ⟨x, r1, r2, h1, h2, _⟩ := bind_ok_inv h
-      simp only [Res.ok.injEq] at h2
-      rw [← h2.1]; exact goodRef_pos (fv_scalar rfl h1)
-    | date _ =>
-      simp only [parseArgs, bind_eq, pure_eq] at h
-      obtain ⟨x, r1, r2, h1, h2, _⟩ := bind_ok_inv h
-      simp only [Res.ok.injEq] at h2
-      rw [← h2.1]; exact goodRef_pos (fv_scalar rfl h1)
-
-/-! ### the main induction -/
-
-abbrev NS {α : Type} (r : Res α) : Prop := Safe (fun _ => False) goodRef r
-
-def MacOk (m : Macros) : Prop := ∀ p ∈ m, okNode p.2 = true
-
-theorem lookupMacro_mem {m : Macros} {name : String} {mk : KVs} (h : lookupMacro m name = some mk) :
-    ∃ p ∈ m, p.2 = mk := by
-  unfold lookupMacro at h
-  split at h
-  · rename_i p hp
-    have hm := List.mem_of_getLast? hp
-    simp only [Option.some.injEq] at h
-    exact ⟨p, (List.mem_filter.mp hm).1, h⟩
-  · cases h
+abbrev NS {α : Type} (r : Res α) : Prop := Safe (fun _ => False) (fun _ => True) r
 
 structure AllNS (fuel : Nat) : Prop where
-  fv : ∀ m v, MacOk m → okFV v = true → NS (parseFieldValue fuel m v)
-  st : ∀ m kvs, MacOk m → okStruct kvs = true → NS (parseStructured fuel m kvs)
-  args : ∀ m a, MacOk m → okArgs a = true → NS (parseArgs fuel m a)
-  fields : ∀ m kvs, MacOk m → okFields kvs = true → NS (parseFields fuel m kvs)
-  stmts : ∀ m top xs, MacOk m → okStmts xs = true → NS (parseStmts fuel m top xs)
-  var : ∀ m kvs, MacOk m → okNode kvs = true → getTruthy kvs "var" = true → NS (parseVar fuel m kvs)
-  fe : ∀ m kvs, MacOk m → okNode kvs = true → (lookup kvs "var").isSome = true →
-    NS (parseForEach fuel m kvs)
-  incs : ∀ m names parents, MacOk m → NS (parseInclusions fuel m names parents)
-  mac : ∀ m name parents, MacOk m → NS (includeMacro fuel m name parents)
-  tmpl : ∀ m top kvs, MacOk m → okNode kvs = true → getTruthy kvs "object" = true →
-    NS (parseTemplate fuel m top kvs)
-  incsNames : ∀ m names parents inc refs, MacOk m →
-    parseInclusions fuel m names parents = .ok inc refs → ∀ q ∈ inc.1, q.1.isStr = true
-  macNames : ∀ m name parents r refs, MacOk m →
-    includeMacro fuel m name parents = .ok r refs → ∀ q ∈ r.1, q.1.isStr = true
+  fv : ∀ m ex v, NS (parseFieldValue fuel m ex v)
+  st : ∀ m ex kvs, NS (parseStructured fuel m ex kvs)
+  args : ∀ m ex a, NS (parseArgs fuel m ex a)
+  fields : ∀ m ex kvs, NS (parseFields fuel m ex kvs)
+  stmts : ∀ m ex top xs, NS (parseStmts fuel m ex top xs)
+  var : ∀ m ex kvs, getTruthy kvs "var" = true → NS (parseVar fuel m ex kvs)
+  fe : ∀ m ex kvs, NS (parseForEach fuel m ex kvs)
+  incs : ∀ m ex names parents, NS (parseInclusions fuel m ex names parents)
+  mac : ∀ m ex name parents, NS (includeMacro fuel m ex name parents)
+  tmpl : ∀ m ex top kvs, getTruthy kvs "object" = true → NS (parseTemplate fuel m ex top kvs)
 
 theorem allNS_zero : AllNS 0 := by
   constructor
-  case incsNames => intro m names parents inc refs _ h; simp [parseInclusions] at h
-  case macNames => intro m name parents r refs _ h; simp [includeMacro] at h
   all_goals
     intros
     simp only [parseFieldValue, parseStructured, parseArgs, parseFields,
       parseStmts, parseVar, parseForEach, parseInclusions, includeMacro, parseTemplate]
     exact safe_fuel
 
-theorem okVals_mem {kvs : KVs} (h : okVals kvs = true) : ∀ p ∈ kvs, okFV p.2 = true := by
-  induction kvs with
-  | nil => intro p hp; cases hp
-  | cons q rest ih =>
-    obtain ⟨k, v⟩ := q
-    simp only [okVals, Bool.and_eq_true] at h
-    intro p hp
-    rcases List.mem_cons.mp hp with hp | hp
-    · subst hp; exact h.1
-    · exact ih h.2 p hp
-
-theorem okFVs_mem {xs : List Y} (h : okFVs xs = true) : ∀ x ∈ xs, okFV x = true := by
-  induction xs with
-  | nil => intro p hp; cases hp
-  | cons q rest ih =>
-    simp only [okFVs, Bool.and_eq_true] at h
-    intro p hp
-    rcases List.mem_cons.mp hp with hp | hp
-    · subst hp; exact h.1
-    · exact ih h.2 p hp
-
-theorem okFields_mem {kvs : KVs} (h : okFields kvs = true) :
-    ∀ p ∈ kvs, p.1.truthy = true ∧ p.1.isStr = true ∧ okFV p.2 = true := by
-  induction kvs with
-  | nil => intro p hp; cases hp
-  | cons q rest ih =>
-    obtain ⟨k, v⟩ := q
-    simp only [okFields, Bool.and_eq_true] at h
-    intro p hp
-    rcases List.mem_cons.mp hp with hp | hp
-    · subst hp; exact ⟨h.1.1.1, h.1.1.2, h.1.2⟩
-    · exact ih h.2 p hp
-
-theorem okStmts_mem {xs : List Y} (h : okStmts xs = true) :
-    ∀ x ∈ xs, ∃ kvs, x = .map kvs ∧ okNode kvs = true ∧
-      (getTruthy kvs "object" || getTruthy kvs "var" || kvs.all (fun p => p.1.isStr)) = true := by
-  induction xs with
-  | nil => intro p hp; cases hp
-  | cons q rest ih =>
-    cases q <;> simp only [okStmts, Bool.and_eq_true] at h <;> try (cases h; done)
-    rename_i kvs
-    intro p hp
-    rcases List.mem_cons.mp hp with hp | hp
-    · subst hp; exact ⟨kvs, rfl, h.1.2, h.1.1⟩
-    · exact ih h.2 p hp
-
-/-- the names that `parse_fields` returns are the keys of the mapping -/
-theorem parseFields_names {m : Macros} {n : Nat} {kvs : KVs} {l : List (Y × Ast)} {refs : List Ref}
-    (h : parseFields n m kvs = .ok l refs) : ∀ q ∈ l, ∃ p ∈ kvs, p.1 = q.1 := by
-  cases n with
-  | zero => simp [parseFields] at h
-  | succ n =>
-    simp only [parseFields] at h
-    intro q hq
-    obtain ⟨p, hp, r, hf⟩ := mapR_ok_mem h q hq
-    refine ⟨p, hp, ?_⟩
-    split at hf
-    · cases hf
-    · simp only [bind_eq, pure_eq] at hf
-      obtain ⟨x, r1, r2, h1, h2, _⟩ := bind_ok_inv hf
-      simp only [Res.ok.injEq] at h2
-      rw [← h2.1]
-
-/-- all raw field names returned for a template / macro are strings -/
-def NamesStr (l : List (Y × Ast)) : Prop := ∀ q ∈ l, q.1.isStr = true
-
-theorem parseFields_namesStr {m : Macros} {n : Nat} {kvs : KVs} {l : List (Y × Ast)} {refs : List Ref}
-    (hk : okFields kvs = true) (h : parseFields n m kvs = .ok l refs) : NamesStr l := by
-  intro q hq
-  obtain ⟨p, hp, he⟩ := parseFields_names h q hq
-  rw [← he]; exact (okFields_mem hk p hp).2.1
-
-theorem onMap_fields_namesStr {m : Macros} {n : Nat} {v : Option Y} {l : List (Y × Ast)} {refs : List Ref}
-    (hk : ∀ f, v = some (.map f) → okFields f = true)
-    (h : onMap v (parseFields n m) [] = .ok l refs) : NamesStr l := by
-  unfold onMap at h
-  split at h
-  · exact parseFields_namesStr (hk _ rfl) h
-  · simp only [pure_eq, Res.ok.injEq] at h
-    rw [← h.1]; intro q hq; cases hq
+/-- a truthy key that `parse_element` accepted as the element type is a string -/
+theorem truthy_elem_str {kvs : KVs} {et : String} {m o : KeyTable} {u : Unit} {refs : List Ref}
+    (hpe : parseElement kvs et m o = .ok u refs) {v : Y} (hl : lookup kvs et = some v) :
+    ∃ s, v = .str s := by
+  obtain ⟨tys, ht1, ht2⟩ := parseElement_ok_lookup hpe hl
+  simp only [expectedTy, beq_self_eq_true, ↓reduceIte, Option.some.injEq] at ht1
+  subst ht1
+  cases v <;> simp [hasTy] at ht2
+  exact ⟨_, rfl⟩
 
 section step
 variable {fuel : Nat} (ih : AllNS fuel)
 include ih
 
-theorem fv_step (m : Macros) (v : Y) (hm : MacOk m) (hv : okFV v = true) :
-    NS (parseFieldValue (fuel + 1) m v) := by
+theorem fv_step (m : Macros) (ex : List String) (v : Y) : NS (parseFieldValue (fuel + 1) m ex v) := by
   simp only [parseFieldValue]
   split
-  · rename_i kvs
-    apply ih.fv m _ hm
-    simpa only [okFV] using hv
-  · rename_i xs hne
-    cases xs with
-    | nil => simp [okFV] at hv
-    | cons x rest =>
-      cases rest with
-      | nil =>
-        cases x <;> simp [okFV] at hv
-        exact absurd rfl (hne _)
-      | cons y ys => cases x <;> simp [okFV] at hv
-  · rename_i kvs
-    simp only [okFV] at hv
-    split
-    · rename_i hobj
-      simp only [hobj, ↓reduceIte] at hv
-      exact ih.tmpl m false kvs hm hv hobj
-    · rename_i hobj
-      simp only [hobj, Bool.false_eq_true, ↓reduceIte] at hv
-      exact ih.st m kvs hm hv
+  · exact ih.fv m ex _
+  · exact safe_err _
+  · split
+    · rename_i hobj; exact ih.tmpl m ex false _ hobj
+    · exact ih.st m ex _
   · exact safe_ok_nil _
 
-theorem st_step (m : Macros) (kvs : KVs) (hm : MacOk m) (hk : okStruct kvs = true) :
-    NS (parseStructured (fuel + 1) m kvs) := by
+theorem st_step (m : Macros) (ex : List String) (kvs : KVs) : NS (parseStructured (fuel + 1) m ex kvs) := by
   simp only [parseStructured]
   split
   · exact safe_err _
-  · rename_i k a rest
-    simp only [okStruct, Bool.and_eq_true] at hk
-    obtain ⟨hk1, hk2⟩ := hk
-    cases k <;> simp only [Bool.false_eq_true] at hk1
-    rename_i fn
-    simp only [Bool.and_eq_true, decide_eq_true_eq, Bool.or_eq_true, bne_iff_ne, ne_eq] at hk1
-    have hdots : ¬ (countDots fn ≥ 2) := by omega
-    simp only [hdots, ↓reduceIte, bind_eq, pure_eq]
-    have hargs : okArgs (if rest.isEmpty = true then a else Y.map rest) = true := by
-      split
-      · rename_i he; simpa only [he, ↓reduceIte] using hk2
-      · rename_i he
-        simp only [he, Bool.false_eq_true, ↓reduceIte] at hk2
-        simpa only [okArgs] using hk2
-    apply safe_bind (ih.args m _ hm hargs)
-    intro pa refs hpa
-    split
-    · rename_i hfn
-      have hfn' : fn = "random_reference" := by simpa using hfn
-      apply safe_ok_one
-      rcases hk1.2 with h | h
-      · exact absurd hfn' h
-      · exact parseArgs_goodRef hpa h
-    · exact safe_ok_nil _
+  · split
+    · split
+      · exact safe_err _
+      · simp only [bind_eq, pure_eq]
+        apply safe_bind (ih.args m ex _)
+        intro pa _ _
+        split
+        · exact safe_ok_one _ _ trivial
+        · exact safe_ok_nil _
+    · exact safe_err _
 
-theorem args_step (m : Macros) (a : Y) (hm : MacOk m) (ha : okArgs a = true) :
-    NS (parseArgs (fuel + 1) m a) := by
-  have hscalar : ∀ s : Y, isScalar s = true →
-      NS ((parseFieldValue fuel m s).bind fun x => (Res.ok ([x], []) [] : Res Ref)) := by
-    intro s hs
-    apply safe_bind
-    · apply ih.fv m _ hm
-      cases s <;> first | rfl | cases hs
-    · intro _ _ _; exact safe_ok_nil _
+theorem args_step (m : Macros) (ex : List String) (a : Y) : NS (parseArgs (fuel + 1) m ex a) := by
+  have hscalar : ∀ s : Y,
+      NS ((parseFieldValue fuel m ex s).bind fun x => (Res.ok ([x], []) [] : Res Ref)) := by
+    intro s
+    apply safe_bind (ih.fv m ex s)
+    intro _ _ _; exact safe_ok_nil _
   cases a with
   | map kvs =>
-    simp only [okArgs] at ha
     simp only [parseArgs, bind_eq, pure_eq]
     apply safe_bind
     · apply safe_mapR
-      intro p hp
+      intro p _
       apply safe_bind
       · cases p.1 <;> simp only [coerceKey, pure_eq] <;> first | exact safe_ok_nil _ | exact safe_err _
       · intro k _ _
-        apply safe_bind (ih.fv m _ hm (okVals_mem ha p hp))
+        apply safe_bind (ih.fv m ex _)
         intro _ _ _
         exact safe_ok_nil _
     · intro _ _ _; exact safe_ok_nil _
   | list xs =>
-    simp only [okArgs] at ha
     simp only [parseArgs, bind_eq, pure_eq]
     apply safe_bind
     · apply safe_mapR
-      intro x hx
-      exact ih.fv m _ hm (okFVs_mem ha x hx)
+      intro x _
+      exact ih.fv m ex _
     · intro _ _ _; exact safe_ok_nil _
-  | null => simp only [parseArgs, bind_eq, pure_eq]; exact hscalar _ rfl
-  | bool _ => simp only [parseArgs, bind_eq, pure_eq]; exact hscalar _ rfl
-  | int _ => simp only [parseArgs, bind_eq, pure_eq]; exact hscalar _ rfl
-  | float _ => simp only [parseArgs, bind_eq, pure_eq]; exact hscalar _ rfl
-  | str _ => simp only [parseArgs, bind_eq, pure_eq]; exact hscalar _ rfl
-  | date _ => simp only [parseArgs, bind_eq, pure_eq]; exact hscalar _ rfl
+  | null => simp only [parseArgs, bind_eq, pure_eq]; exact hscalar _
+  | bool _ => simp only [parseArgs, bind_eq, pure_eq]; exact hscalar _
+  | int _ => simp only [parseArgs, bind_eq, pure_eq]; exact hscalar _
+  | float _ => simp only [parseArgs, bind_eq, pure_eq]; exact hscalar _
+  | str _ => simp only [parseArgs, bind_eq, pure_eq]; exact hscalar _
+  | date _ => simp only [parseArgs, bind_eq, pure_eq]; exact hscalar _
 
-theorem fields_step (m : Macros) (kvs : KVs) (hm : MacOk m) (hk : okFields kvs = true) :
-    NS (parseFields (fuel + 1) m kvs) := by
+theorem fields_step (m : Macros) (ex : List String) (kvs : KVs) : NS (parseFields (fuel + 1) m ex kvs) := by
   simp only [parseFields]
   apply safe_mapR
-  intro p hp
-  obtain ⟨h1, h2, h3⟩ := okFields_mem hk p hp
-  simp only [h1, Bool.not_true, Bool.false_eq_true, ↓reduceIte, bind_eq, pure_eq]
-  apply safe_bind (ih.fv m _ hm h3)
-  intro _ _ _; exact safe_ok_nil _
+  intro p _
+  split
+  · split
+    · exact safe_err _
+    · simp only [bind_eq, pure_eq]
+      apply safe_bind (ih.fv m ex _)
+      intro _ _ _; exact safe_ok_nil _
+  · exact safe_err _
 
-theorem stmts_step (m : Macros) (top : Bool) (xs : List Y) (hm : MacOk m) (hx : okStmts xs = true) :
-    NS (parseStmts (fuel + 1) m top xs) := by
+theorem stmts_step (m : Macros) (ex : List String) (top : Bool) (xs : List Y) :
+    NS (parseStmts (fuel + 1) m ex top xs) := by
   simp only [parseStmts]
   apply safe_mapR
-  intro x hxm
-  obtain ⟨kvs, rfl, h1, h2⟩ := okStmts_mem hx x hxm
-  simp only
+  intro x _
   split
-  · rename_i hobj; exact ih.tmpl m top kvs hm h1 hobj
   · split
-    · rename_i hvar; exact ih.var m kvs hm h1 hvar
-    · rename_i hobj hvar
-      simp only [hobj, hvar, Bool.or_self, Bool.false_or] at h2
-      simp only [h2, ↓reduceIte]
-      exact safe_err _
+    · rename_i hobj; exact ih.tmpl m ex top _ hobj
+    · split
+      · rename_i hvar; exact ih.var m ex _ hvar
+      · exact safe_err _
+  · exact safe_err _
 
-theorem var_step (m : Macros) (kvs : KVs) (hm : MacOk m) (hk : okNode kvs = true)
-    (hv : getTruthy kvs "var" = true) : NS (parseVar (fuel + 1) m kvs) := by
+theorem var_step (m : Macros) (ex : List String) (kvs : KVs) (hv : getTruthy kvs "var" = true) :
+    NS (parseVar (fuel + 1) m ex kvs) := by
   simp only [parseVar, bind_eq, pure_eq]
   apply safe_bind (parseElement_safe ..)
   intro _ _ hpe
   split
-  · rename_i name value h1 h2
-    apply safe_bind (ih.fv m _ hm (okNode_value hk h2))
+  · apply safe_bind (ih.fv m ex _)
     intro _ _ _; exact safe_ok_nil _
   · rename_i hno
     exfalso
@@ -442,148 +142,86 @@ theorem var_step (m : Macros) (kvs : KVs) (hm : MacOk m) (hk : okNode kvs = true
     cases hl : lookup kvs "var" with
     | none => simp [hl] at hv
     | some v =>
-      obtain ⟨tys, ht1, ht2⟩ := parseElement_ok_lookup hpe hl
-      simp only [expectedTy, beq_self_eq_true, ↓reduceIte, Option.some.injEq] at ht1
-      subst ht1
-      cases v <;> simp [hasTy] at ht2
-      rename_i name
+      obtain ⟨name, rfl⟩ := truthy_elem_str hpe hl
       cases hl2 : lookup kvs "value" with
       | none => simp [hl2] at hmand
       | some value => exact hno name value hl hl2
 
-theorem fe_step (m : Macros) (kvs : KVs) (hm : MacOk m) (hk : okNode kvs = true)
-    (hv : (lookup kvs "var").isSome = true) : NS (parseForEach (fuel + 1) m kvs) := by
+theorem fe_step (m : Macros) (ex : List String) (kvs : KVs) : NS (parseForEach (fuel + 1) m ex kvs) := by
   simp only [parseForEach, bind_eq, pure_eq]
   apply safe_bind (parseElement_safe ..)
   intro _ _ hpe
   split
-  · rename_i name value h1 h2
-    apply safe_bind (ih.fv m _ hm (okNode_value hk h2))
+  · apply safe_bind (ih.fv m ex _)
     intro _ _ _; exact safe_ok_nil _
   · rename_i hno
     exfalso
+    -- `var` and `value` are mandatory, and `var` is the element type: a string
     have hmand := (parseElement_ok hpe).2
-    simp only [forEachMandatory, List.all_cons, List.all_nil, Bool.and_true] at hmand
+    simp only [forEachMandatory, List.all_cons, List.all_nil, Bool.and_true, Bool.and_eq_true] at hmand
     cases hl : lookup kvs "var" with
-    | none => simp [hl] at hv
+    | none => simp [hl] at hmand
     | some v =>
-      obtain ⟨tys, ht1, ht2⟩ := parseElement_ok_lookup hpe hl
-      simp only [expectedTy, beq_self_eq_true, ↓reduceIte, Option.some.injEq] at ht1
-      subst ht1
-      cases v <;> simp [hasTy] at ht2
-      rename_i name
+      obtain ⟨name, rfl⟩ := truthy_elem_str hpe hl
       cases hl2 : lookup kvs "value" with
       | none => simp [hl2] at hmand
       | some value => exact hno name value hl hl2
 
-theorem incs_step (m : Macros) (names parents : List String) (hm : MacOk m) :
-    NS (parseInclusions (fuel + 1) m names parents) := by
+theorem incs_step (m : Macros) (ex names parents : List String) :
+    NS (parseInclusions (fuel + 1) m ex names parents) := by
   simp only [parseInclusions, bind_eq, pure_eq]
   apply safe_bind
   · apply safe_mapR
     intro n _
-    exact ih.mac m n parents hm
+    exact ih.mac m ex n parents
   · intro _ _ _; exact safe_ok_nil _
 
-theorem mac_step (m : Macros) (name : String) (parents : List String) (hm : MacOk m) :
-    NS (includeMacro (fuel + 1) m name parents) := by
+theorem mac_step (m : Macros) (ex : List String) (name : String) (parents : List String) :
+    NS (includeMacro (fuel + 1) m ex name parents) := by
   simp only [includeMacro]
   split
   · exact safe_err _
-  · rename_i mk hmk
-    obtain ⟨p, hp, rfl⟩ := lookupMacro_mem hmk
-    have hok := hm p hp
-    simp only [bind_eq, pure_eq]
+  · simp only [bind_eq, pure_eq]
     apply safe_bind (parseElement_safe ..)
     intro _ _ _
     split
     · exact safe_err _
-    · apply safe_bind (ih.incs m _ _ hm)
+    · apply safe_bind (ih.incs m _ _ _)
       intro inc _ _
-      apply safe_bind (safe_onMap (fun f hf => ih.fields m f hm (okNode_fields hok hf)))
+      apply safe_bind (safe_onMap (fun f _ => ih.fields m _ f))
       intro fields _ _
-      apply safe_bind (safe_onList (fun f hf => ih.stmts m false f hm (okNode_friends hok hf)))
+      apply safe_bind (safe_onList (fun f _ => ih.stmts m _ false f))
       intro _ _ _; exact safe_ok_nil _
 
-theorem tmpl_step (m : Macros) (top : Bool) (kvs : KVs) (hm : MacOk m) (hk : okNode kvs = true)
-    (hobj : getTruthy kvs "object" = true) :
-    NS (parseTemplate (fuel + 1) m top kvs) := by
+theorem tmpl_step (m : Macros) (ex : List String) (top : Bool) (kvs : KVs)
+    (hobj : getTruthy kvs "object" = true) : NS (parseTemplate (fuel + 1) m ex top kvs) := by
   simp only [parseTemplate, bind_eq, pure_eq]
   apply safe_bind (parseElement_safe ..)
   intro _ _ hpe
   split
   · exact safe_err _
   · split
-    · rename_i table htable
-      apply safe_bind (ih.incs m _ _ hm)
-      intro inc _ hinc
-      apply safe_bind (safe_onMap (fun f hf => ih.fields m f hm (okNode_fields hk hf)))
-      intro fields _ hfields
-      apply safe_bind (safe_onList (fun f hf => ih.stmts m false f hm (okNode_friends hk hf)))
+    · apply safe_bind (ih.incs m ex _ _)
+      intro inc _ _
+      apply safe_bind (safe_onMap (fun f _ => ih.fields m ex f))
+      intro fields _ _
+      apply safe_bind (safe_onList (fun f _ => ih.stmts m ex false f))
       intro friends _ _
-      apply safe_bind (safe_optR (fun c hc => ih.fv m c hm (okNode_count hk hc)))
+      apply safe_bind (safe_optR (fun c _ => ih.fv m ex c))
       intro count _ _
-      apply safe_bind (safe_optMapR (fun fe hfe => ih.fe m fe hm (okNode_forEach hk hfe).2 (okNode_forEach hk hfe).1))
+      apply safe_bind (safe_optMapR (fun fe _ => ih.fe m ex fe))
       intro forEach _ _
       split
       · exact safe_err _
-      · split
-        · exact safe_ok_nil _
-        · rename_i hnot
-          exfalso
-          apply hnot
-          rw [List.all_eq_true]
-          intro q hq
-          rcases List.mem_append.mp hq with hq | hq
-          · exact ih.incsNames m _ _ _ _ hm hinc q hq
-          · exact onMap_fields_namesStr (fun f hf => okNode_fields hk hf) hfields q hq
+      · exact safe_ok_nil _
     · rename_i hno
       exfalso
       unfold getTruthy at hobj
       cases hl : lookup kvs "object" with
       | none => simp [hl] at hobj
       | some v =>
-        obtain ⟨tys, ht1, ht2⟩ := parseElement_ok_lookup hpe hl
-        simp only [expectedTy, beq_self_eq_true, ↓reduceIte, Option.some.injEq] at ht1
-        subst ht1
-        cases v <;> simp [hasTy] at ht2
+        obtain ⟨t, rfl⟩ := truthy_elem_str hpe hl
         exact hno _ hl
-
-theorem incsNames_step (m : Macros) (names parents : List String) (inc : List (Y × Ast) × List Ast)
-    (refs : List Ref) (hm : MacOk m) (h : parseInclusions (fuel + 1) m names parents = .ok inc refs) :
-    ∀ q ∈ inc.1, q.1.isStr = true := by
-  simp only [parseInclusions, bind_eq, pure_eq] at h
-  obtain ⟨rs, r1, r2, h1, h2, _⟩ := bind_ok_inv h
-  simp only [Res.ok.injEq] at h2
-  rw [← h2.1]
-  intro q hq
-  simp only [List.mem_flatMap] at hq
-  obtain ⟨r, hr, hqr⟩ := hq
-  obtain ⟨n, _, r', hn⟩ := mapR_ok_mem h1 r hr
-  exact ih.macNames m n parents r r' hm hn q hqr
-
-theorem macNames_step (m : Macros) (name : String) (parents : List String)
-    (r : List (Y × Ast) × List Ast) (refs : List Ref) (hm : MacOk m)
-    (h : includeMacro (fuel + 1) m name parents = .ok r refs) : ∀ q ∈ r.1, q.1.isStr = true := by
-  simp only [includeMacro] at h
-  split at h
-  · cases h
-  · rename_i mk hmk
-    obtain ⟨p, hp, rfl⟩ := lookupMacro_mem hmk
-    have hok := hm p hp
-    simp only [bind_eq, pure_eq] at h
-    obtain ⟨_, r1, r2, h1, h2, _⟩ := bind_ok_inv h
-    split at h2
-    · cases h2
-    · obtain ⟨inc, r3, r4, h3, h4, _⟩ := bind_ok_inv h2
-      obtain ⟨fields, r5, r6, h5, h6, _⟩ := bind_ok_inv h4
-      obtain ⟨friends, r7, r8, h7, h8, _⟩ := bind_ok_inv h6
-      simp only [Res.ok.injEq] at h8
-      rw [← h8.1]
-      intro q hq
-      rcases List.mem_append.mp hq with hq | hq
-      · exact ih.incsNames m _ _ _ _ hm h3 q hq
-      · exact onMap_fields_namesStr (fun f hf => okNode_fields hok hf) h5 q hq
 
 end step
 
@@ -593,7 +231,6 @@ theorem allNS : ∀ fuel, AllNS fuel
     have ih := allNS n
     { fv := fv_step ih, st := st_step ih, args := args_step ih, fields := fields_step ih,
       stmts := stmts_step ih, var := var_step ih, fe := fe_step ih, incs := incs_step ih,
-      mac := mac_step ih, tmpl := tmpl_step ih, incsNames := incsNames_step ih,
-      macNames := macNames_step ih }
+      mac := mac_step ih, tmpl := tmpl_step ih }
 
 end SnowModel.ParseCheck
